@@ -701,8 +701,9 @@ fn sim_case(p: &Plan, r: &mut Rng, silent: &Arc<Mutex<Option<String>>>) -> Case 
                         match id.and_then(|id| w.bgid.iter().position(|g| *g == id)) {
                             Some(q) => {
                                 unregistered[q] += 1;
-                                if pool_frees[q][0] + pool_frees[q][1] > 0 {
-                                    pr.add(format!("{what}: pool{q} was unregistered after its memory was freed"));
+                                let dead = simk::with(|s| s.pbuf_unregistered_after_free.contains(&w.bgid[q]));
+                                if dead || pool_frees[q][0] + pool_frees[q][1] > 0 {
+                                    pr.add(format!("{what}: pool{q} was unregistered after its ring memory was freed (the kernel still had it registered)"));
                                 }
                                 obs.extend([3, 1, q as i128]);
                             }
@@ -881,16 +882,16 @@ enum RealFut {
     Read(Pin<Box<a10::io::Read<'static, Vec<u8>>>>),
 }
 
-fn real_case(r: &mut Rng) -> Case {
+fn real_case(r: &mut Rng, heavy: bool) -> Case {
     a10::verif::uninstall();
-    let sqn = *r.pick(&[2u32, 4]);
+    let sqn = if heavy { 2 } else { *r.pick(&[2u32, 4]) };
     let n_fds = 1 + r.below(3) as usize;
-    let n_ops = r.below(4) as usize;
+    let n_ops = if heavy { 5 + r.below(3) as usize } else { r.below(4) as usize };
     let n_pools = r.below(2) as usize;
     let clones = r.below(3) as usize;
     let mut plan = Plan { sqn, cqn: 2 * sqn, clones, fds: n_fds, ops: Vec::new(), pools: n_pools, bufs: Vec::new(), events: Vec::new() };
     for _ in 0..n_ops {
-        let st = *r.pick(&[Ist::NotStarted, Ist::Queued, Ist::Inflight, Ist::Inflight]);
+        let st = if heavy { Ist::Inflight } else { *r.pick(&[Ist::NotStarted, Ist::Queued, Ist::Inflight, Ist::Inflight]) };
         plan.ops.push((Some(r.below(n_fds as u64) as usize), Kind::Read, st));
     }
     // Keep the queued ones within the queue.
@@ -936,6 +937,7 @@ fn real_case(r: &mut Rng) -> Case {
     let maps_before = ring_mappings();
     let live_before = alloc::live();
     let mut leaked_fds_expected = 0usize;
+    let mut tags_note: Option<&'static str> = None;
     {
         ring = a10::Ring::config().with_submission_queue_size(sqn).build().expect("second ring");
         let sq = ring.sq();
@@ -1032,22 +1034,43 @@ fn real_case(r: &mut Rng) -> Case {
     }
     let extra_fds = fds_after as i64 - fds_before as i64;
     if extra_fds != 0 {
-        if extra_fds == leaked_fds_expected as i64 {
+        // With more running operations than the drain handles, futures dropped after the ring are
+        // still `Running`: their cancellation requests take queue slots too, and a later AsyncFd may
+        // find the queue full and close synchronously.
+        if extra_fds == leaked_fds_expected as i64 || (heavy && extra_fds > 0 && extra_fds <= leaked_fds_expected as i64) {
             problems.push((format!("{extra_fds} descriptor(s) left in /proc/self/fd: AsyncFds dropped after the ring"), Some(H13)));
         } else {
             problems.push((format!("{extra_fds} descriptor(s) left in /proc/self/fd ({leaked_fds_expected} AsyncFd(s) were dropped after the ring)"), None));
         }
     }
-    // The real completion queue (2 x sq entries) holds every final completion of these
-    // populations, so no operation state may be left.
+    // The real completion queue has 2 x sq entries: with no more running operations than that at
+    // the ring's drop no operation state may be left.
+    let running = plan.ops.iter().filter(|o| matches!(o.2, Ist::Queued | Ist::Inflight)).count();
     if live_after != live_before {
-        problems.push((format!("{} heap block(s) left allocated", live_after as i64 - live_before as i64), None));
+        let what = format!(
+            "{} heap block(s) left allocated ({running} operations running when the ring was dropped, completion queue of {})",
+            live_after as i64 - live_before as i64,
+            plan.cqn
+        );
+        if running > plan.cqn as usize && live_after > live_before {
+            problems.push((what, Some(H14)));
+        } else {
+            problems.push((what, None));
+        }
+    } else if running > plan.cqn as usize {
+        tags_note = Some("real-kernel:overflow-but-no-leak");
     }
     // A leaked descriptor must not be left to the next case's count.
     let (oracle, known) = Problems { list: problems }.verdict();
     let mut tags = vec!["real-kernel".to_string()];
-    if known.is_some() {
-        tags.push("real-kernel:h13".into());
+    if let Some(k) = &known {
+        tags.push(format!("real-kernel:{k}"));
+    }
+    if heavy {
+        tags.push("real-kernel:more-running-than-cq".into());
+    }
+    if let Some(n) = tags_note {
+        tags.push(n.into());
     }
     Case { coq: String::new(), obs: vec![], json, oracle, known, tags, nontrivial: true }
 }
@@ -1086,7 +1109,7 @@ pub fn run(args: &Args) -> i32 {
                 },
             }
         } else {
-            real_case(&mut r)
+            real_case(&mut r, (i - n_random - n_fixed) % 8 == 7)
         }
     });
     let _ = std::panic::take_hook();
